@@ -791,3 +791,225 @@ Section FreshB.
     split; [apply staleb_false; apply negb_true_iff; exact H1 | apply IH; exact H2].
   Qed.
 End FreshB.
+
+(* ================================================================ (2b) where a downstream packet comes from *)
+
+(* every packet in a queue (live or closed), every packet taken off a queue and every packet a carrier was written
+   was accepted by WriteTo for the queue it sits in / came from — together with the ownership of queue identities:
+   for the ClientID (key) the carrier presented *)
+
+Lemma dead_take_spec k : forall d,
+  (forall q l', In (q, l') (fst (dead_take k d)) -> exists l, In (q, l) d /\ incl l' l) /\
+  (forall p, snd (dead_take k d) = RcvPkt p -> exists l, In (k, l) d /\ In p l).
+Proof.
+  induction d as [|[k' q] t IH]; cbn [dead_take].
+  - split; [intros q l' [] | intros p H; discriminate].
+  - destruct (Nat.eqb_spec k' k) as [->|Hne].
+    + destruct q as [|p0 q']; cbn [fst snd].
+      * split; [|intros p H; discriminate]. intros q l' H. exists l'. split; [exact H | apply incl_refl].
+      * split.
+        -- intros q l' [H|H].
+           ++ injection H as <- <-. exists (p0 :: q'). split; [left; reflexivity | apply incl_tl, incl_refl].
+           ++ exists l'. split; [right; exact H | apply incl_refl].
+        -- intros p H. injection H as <-. exists (p0 :: q'). split; left; reflexivity.
+    + destruct (dead_take k t) as [t' r] eqn:E. cbn [fst snd] in *. destruct IH as [IH1 IH2]. split.
+      * intros q0 l' [H|H].
+        -- injection H as <- <-. exists q. split; [left; reflexivity | apply incl_refl].
+        -- destruct (IH1 q0 l' H) as [l [Hl Hi]]. exists l. split; [right; exact Hl | exact Hi].
+      * intros p H. destruct (IH2 p H) as [l [Hl Hp]]. exists l. split; [right; exact Hl | exact Hp].
+Qed.
+
+Lemma q_recv_src q c : cm_inv c ->
+  (forall b r', rec_of (fst (q_recv q c)) b = Some r' ->
+     exists r, rec_of c b = Some r /\ c_qid r' = c_qid r /\ incl (c_q r') (c_q r)) /\
+  (forall q0 l', In (q0, l') (dead (fst (q_recv q c))) -> exists l, In (q0, l) (dead c) /\ incl l' l) /\
+  (forall p, snd (q_recv q c) = RcvPkt p ->
+     (exists b r, rec_of c b = Some r /\ c_qid r = q /\ In p (c_q r)) \/ (exists l, In (q, l) (dead c) /\ In p l)).
+Proof.
+  intros Hinv. pose proof (q_recv_rec q c Hinv) as (_ & _ & Hoth & Hsame).
+  assert (Hrecs : forall b r', rec_of (fst (q_recv q c)) b = Some r' ->
+            exists r, rec_of c b = Some r /\ c_qid r' = c_qid r /\ incl (c_q r') (c_q r)).
+  { intros b r' H. destruct (rec_of c b) as [r|] eqn:Er.
+    - destruct (Nat.eq_dec (c_qid r) q) as [E|Ne].
+      + destruct (Hsame b r Er E) as (_ & H2 & _). rewrite H2 in H. injection H as <-. exists r. split; [reflexivity|].
+        split; [reflexivity|]. cbn. destruct (c_q r); [apply incl_refl | apply incl_tl, incl_refl].
+      + rewrite Hoth in H by (intros r0 H0; congruence). rewrite Er in H. injection H as <-. exists r.
+        split; [reflexivity|]. split; [reflexivity | apply incl_refl].
+    - rewrite Hoth in H by (intros r0 H0; congruence). congruence. }
+  split; [exact Hrecs|]. unfold q_recv. destruct (find_qid q (byAge c)) as [i|] eqn:Hf.
+  - destruct (find_qid_some _ _ _ Hf) as [r0 [Hi Hq0]]. rewrite Hi.
+    assert (Hrec0 : rec_of c (c_addr r0) = Some r0) by (apply rec_of_in; [exact Hinv | eapply nth_error_In; eauto]).
+    destruct (c_q r0) as [|p0 q'] eqn:Eq; cbn [fst snd].
+    + split; [intros q0 l' H; exists l'; split; [exact H | apply incl_refl] | intros p H; discriminate].
+    + split; [intros q0 l' H; exists l'; split; [exact H | apply incl_refl]|].
+      intros p H. injection H as <-. left. exists (c_addr r0), r0. rewrite Eq. repeat split; [exact Hrec0 | exact Hq0 | left; reflexivity].
+  - pose proof (dead_take_spec q (dead c)) as [D1 D2]. destruct (dead_take q (dead c)) as [d o]. cbn [fst snd dead] in *.
+    split; [exact D1|]. intros p H. right. apply D2. exact H.
+Qed.
+
+Section Src.
+  Variable timeout : Z.
+
+  Record SrcInv (t : tstate) : Prop := {
+    s_live : forall b r p, rec_of (tcm t) b = Some r -> In p (c_q r) -> In (b, c_qid r, p) (tacc t);
+    s_dead : forall q l p, In (q, l) (dead (tcm t)) -> In p l -> exists b, In (b, q, p) (tacc t);
+    s_cons : forall o b q p, In (o, b, q, p) (tcons t) -> In (b, q, p) (tacc t);
+    s_down : forall i k p, nth_error (tcar t) i = Some k -> In p (k_down k) -> exists q, In (Some i, key_of k, q, p) (tcons t);
+    s_pre : forall i k, nth_error (tcar t) i = Some k -> pre_open k -> k_down k = []
+  }.
+
+  Lemma srcinv_init : SrcInv tinit.
+  Proof.
+    constructor; cbn.
+    - intros b r p H. discriminate.
+    - intros q l p [].
+    - intros o b q p [].
+    - intros [|i] k p H; discriminate.
+    - intros [|i] k H; discriminate.
+  Qed.
+
+  (* SendQueue changes no queue content and no closed queue *)
+  Lemma send_queue_src a now c : cm_inv c ->
+    (forall b r', rec_of (fst (send_queue a now c)) b = Some r' ->
+       c_q r' = [] \/ exists r, rec_of c b = Some r /\ c_qid r' = c_qid r /\ c_q r' = c_q r) /\
+    dead (fst (send_queue a now c)) = dead c.
+  Proof.
+    intros Hinv. destruct (send_queue_rec a now c Hinv) as (_ & Hd & Hoth & Hcase). split; [|exact Hd].
+    intros b r' H. destruct (N.eq_dec b a) as [->|Hne].
+    - destruct (rec_of c a) as [r|] eqn:Er.
+      + destruct Hcase as (_ & Hr' & _). rewrite Hr' in H. injection H as <-. right. exists r. repeat split.
+      + destruct Hcase as (_ & Hr' & _). rewrite Hr' in H. injection H as <-. left. reflexivity.
+    - rewrite (Hoth b Hne) in H. right. exists r'. repeat split. exact H.
+  Qed.
+
+  Theorem tstep_srcinv t o : GInv t -> SrcInv t -> SrcInv (tstep timeout t o).
+  Proof.
+    intros G [Sl Sd Sc Sw Sp]. pose proof G as [Gc Gl Glt Gown Gpre]. destruct o.
+    - (* new *) constructor; cbn [tstep tcm tacc tcons tcar]; try assumption.
+      + intros i k p H Hin. destruct (nth_app_new _ _ _ _ H) as [Ho|[_ ->]]; [apply (Sw i k p Ho Hin) | destruct Hin].
+      + intros i k H Hpre. destruct (nth_app_new _ _ _ _ H) as [Ho|[_ ->]]; [apply (Sp i k Ho Hpre) | reflexivity].
+    - (* recv *) destruct (nth_error (tcar t) i) as [k|] eqn:Hk; [|cbn [tstep]; rewrite Hk; constructor; assumption].
+      destruct (k_state k) eqn:Es; [| | |cbn [tstep]; rewrite Hk, Es; constructor; assumption].
+      all: assert (Hal : k_state k <> K_Dead) by congruence;
+           destruct (trecv_view timeout t i b now k Hk Hal) as (V1 & _ & V3 & V4 & V5); cbn zeta in *;
+           destruct (pump_spec (S (S (S (length (k_buf k) + length b)))) (with_buf (k_buf k ++ b) k)) as [k' [ps [Hp Hok]]];
+           rewrite Hp in *; cbn [fst snd] in *; destruct Hok as [Pdown _ _ Pcid Ppre _]; cbn in Pdown, Pcid, Ppre;
+           pose proof (send_queue_src (key_of k') now (tcm t) Gc) as [Q1 Q2];
+           constructor; rewrite ?V1, ?V3, ?V4, ?V5.
+      all: try (intros b0 r p H Hin; match type of H with context [if ?c then _ else _] => destruct c end;
+                [ destruct (Q1 b0 r H) as [E|[r0 [H0 [E1 E2]]]]; [rewrite E in Hin; destruct Hin | rewrite E1; apply (Sl b0 r0 p H0); rewrite <- E2; exact Hin]
+                | apply (Sl b0 r p H Hin) ]).
+      all: try (intros q l p H Hin; match type of H with context [if ?c then _ else _] => destruct c end;
+                [ rewrite Q2 in H; apply (Sd q l p H Hin) | apply (Sd q l p H Hin) ]).
+      all: try exact Sc.
+      all: try (intros j kj p Hj Hin; destruct (knth_upd_inv _ _ _ _ _ Hj) as [[<- [x [Hx ->]]]|[Hne Hj']]; [|apply (Sw j kj p Hj' Hin)];
+            rewrite Pdown in Hin; destruct (Sw i k p Hk Hin) as [q Hq]; exists q;
+            assert (Hcid : k_cid k' = k_cid k \/ k_down k = []);
+            [ destruct (pre_open_dec k) as [Hpk|Hnp]; [right; apply (Sp i k Hk Hpk) | left; apply Pcid; unfold pre_open in Hnp; destruct (k_state k); tauto] | ];
+            destruct Hcid as [Hc|Hn]; [unfold key_of; rewrite Hc; exact Hq | rewrite Hn in Hin; destruct Hin]).
+      all: (intros j kj Hj Hpre; destruct (knth_upd_inv _ _ _ _ _ Hj) as [[<- [x [Hx ->]]]|[Hne Hj']]; [|apply (Sp j kj Hj' Hpre)];
+            rewrite Pdown; destruct (Ppre Hpre) as [_ Hpk]; apply (Sp i k Hk Hpk)).
+    - (* close *) constructor; cbn [tstep tcm tacc tcons tcar]; try assumption.
+      + intros j kj p Hj Hin. destruct (knth_upd_inv _ _ _ _ _ Hj) as [[<- [x [Hx ->]]]|[Hne Hj']]; [apply (Sw i x p Hx Hin) | apply (Sw j kj p Hj' Hin)].
+      + intros j kj Hj Hpre. destruct (knth_upd_inv _ _ _ _ _ Hj) as [[<- [x [Hx ->]]]|[Hne Hj']]; [|apply (Sp j kj Hj' Hpre)].
+        unfold pre_open in Hpre. cbn in Hpre. destruct Hpre; discriminate.
+    - (* writeto *) cbn [tstep].
+      destruct (send_queue_src (cid_key cid) now (tcm t) Gc) as [Q1 Q2].
+      destruct (live_send_queue (cid_key cid) now (tcm t) Gc) as (L1 & _ & _ & _ & (r & Hr & Hq & _ & _)). cbn zeta in *.
+      destruct (send_queue (cid_key cid) now (tcm t)) as [c1 q0]. cbn [fst snd] in *. subst q0.
+      destruct (q_send_rec QUEUE_SIZE p c1 (cid_key cid) r L1 Hr) as (_ & Hok & Hd2 & _ & Hr2 & Hoth2). cbn zeta in *.
+      destruct (q_send QUEUE_SIZE (c_qid r) p c1) as [c2 ok]. cbn [fst snd] in *. subst ok.
+      assert (Hold : forall b0 r0 p0, rec_of c1 b0 = Some r0 -> In p0 (c_q r0) -> In (b0, c_qid r0, p0) (tacc t)).
+      { intros b0 r0 p0 H Hin. destruct (Q1 b0 r0 H) as [E|[r1 [H1 [E1 E2]]]]; [rewrite E in Hin; destruct Hin|].
+        rewrite E1. apply (Sl b0 r1 p0 H1). rewrite <- E2. exact Hin. }
+      constructor; cbn [tcm tacc tcons tcar].
+      + intros b0 r0 p0 H Hin. destruct (N.eq_dec b0 (cid_key cid)) as [->|Hne].
+        * rewrite Hr2 in H. injection H as <-. cbn [c_qid c_q set_q] in *.
+          destruct (length (c_q r) <? QUEUE_SIZE)%nat.
+          -- apply in_app_or in Hin. apply in_or_app. destruct Hin as [Hin|[<-|[]]]; [left; apply (Hold _ r p0 Hr Hin) | right; left; reflexivity].
+          -- apply (Hold _ r p0 Hr Hin).
+        * rewrite (Hoth2 b0 Hne) in H. destruct (length (c_q r) <? QUEUE_SIZE)%nat; [apply in_or_app; left|]; apply (Hold b0 r0 p0 H Hin).
+      + intros q l p0 H Hin. rewrite Hd2, Q2 in H. destruct (Sd q l p0 H Hin) as [b0 Hb]. exists b0.
+        destruct (length (c_q r) <? QUEUE_SIZE)%nat; [apply in_or_app; left|]; exact Hb.
+      + intros o b0 q p0 H. destruct (length (c_q r) <? QUEUE_SIZE)%nat; [apply in_or_app; left|]; apply (Sc o b0 q p0 H).
+      + exact Sw.
+      + exact Sp.
+    - (* send *) cbn [tstep].
+      destruct (nth_error (tcar t) i) as [k|] eqn:Hk; [|constructor; assumption].
+      destruct (nth_error (theld t) i) as [[q|]|] eqn:Hh; try (constructor; assumption).
+      destruct (k_state k) eqn:Es; try (constructor; assumption).
+      assert (Htq : tied t q (key_of k)) by (right; right; left; exists i, k; repeat split; assumption).
+      destruct (q_recv_src q (tcm t) Gc) as (R1 & R2 & R3). pose proof (q_recv_inv q (tcm t) Gc) as Rinv.
+      destruct (q_recv q (tcm t)) as [c1 r] eqn:Eqr. cbn [fst snd] in *.
+      assert (Hlive1 : forall b0 r0 p0, rec_of c1 b0 = Some r0 -> In p0 (c_q r0) -> In (b0, c_qid r0, p0) (tacc t)).
+      { intros b0 r0 p0 H Hin. destruct (R1 b0 r0 H) as [r1 [H1 [E1 E2]]]. rewrite E1. apply (Sl b0 r1 p0 H1). apply E2. exact Hin. }
+      assert (Hdead1 : forall q0 l p0, In (q0, l) (dead c1) -> In p0 l -> exists b0, In (b0, q0, p0) (tacc t)).
+      { intros q0 l p0 H Hin. destruct (R2 q0 l H) as [l0 [H0 Hi]]. apply (Sd q0 l0 p0 H0). apply Hi. exact Hin. }
+      destruct r as [p| |].
+      + (* the packet was accepted for the carrier's own key *)
+        assert (Hsrc : In (key_of k, q, p) (tacc t)).
+        { destruct (R3 p eq_refl) as [[b0 [r0 [H0 [Hq0 Hin]]]]|[l [Hl Hin]]].
+          - assert (b0 = key_of k); [|subst b0; rewrite <- Hq0; apply (Sl _ r0 p H0 Hin)].
+            apply (Gown q b0 (key_of k)); [|exact Htq]. right. right. right. exists r0. split; assumption.
+          - destruct (Sd q l p Hl Hin) as [b0 Hb]. assert (b0 = key_of k); [|subst b0; exact Hb].
+            apply (Gown q b0 (key_of k)); [|exact Htq]. left. exists p. exact Hb. }
+        destruct (write_data p) as [w|].
+        * destruct (send_queue_src (cid_key (k_cid k)) now c1 Rinv) as [Q1 Q2].
+          destruct (send_queue (cid_key (k_cid k)) now c1) as [c2 q'] eqn:Esq. cbn [fst] in *.
+          constructor; cbn [tcm tacc tcons tcar].
+          -- intros b0 r0 p0 H Hin. destruct (Q1 b0 r0 H) as [E|[r1 [H1 [E1 E2]]]]; [rewrite E in Hin; destruct Hin|].
+             rewrite E1. apply (Hlive1 b0 r1 p0 H1). rewrite <- E2. exact Hin.
+          -- intros q0 l p0 H Hin. rewrite Q2 in H. apply (Hdead1 q0 l p0 H Hin).
+          -- intros o b0 q0 p0 H. apply in_app_or in H. destruct H as [H|[H|[]]]; [apply (Sc o b0 q0 p0 H)|].
+             injection H as _ <- <- <-. exact Hsrc.
+          -- intros j kj p0 Hj Hin. destruct (knth_upd_inv _ _ _ _ _ Hj) as [[<- [x [Hx ->]]]|[Hne Hj']].
+             ++ rewrite Hk in Hx. injection Hx as <-. cbn [open_carrier k_down] in Hin. unfold key_of. cbn [open_carrier k_cid].
+                apply in_app_or in Hin. destruct Hin as [Hin|[<-|[]]].
+                ** destruct (Sw i k p0 Hk Hin) as [q0 Hq0]. exists q0. apply in_or_app. left. exact Hq0.
+                ** exists q. apply in_or_app. right. left. reflexivity.
+             ++ destruct (Sw j kj p0 Hj' Hin) as [q0 Hq0]. exists q0. apply in_or_app. left. exact Hq0.
+          -- intros j kj Hj Hpre. destruct (knth_upd_inv _ _ _ _ _ Hj) as [[<- [x [Hx ->]]]|[Hne Hj']]; [|apply (Sp j kj Hj' Hpre)].
+             unfold pre_open in Hpre. cbn in Hpre. destruct Hpre; discriminate.
+        * constructor; cbn [tcm tacc tcons tcar]; try assumption.
+          -- intros o b0 q0 p0 H. apply in_app_or in H. destruct H as [H|[H|[]]]; [apply (Sc o b0 q0 p0 H)|].
+             injection H as _ <- <- <-. exact Hsrc.
+          -- intros j kj p0 Hj Hin. destruct (knth_upd_inv _ _ _ _ _ Hj) as [[<- [x [Hx ->]]]|[Hne Hj']].
+             ++ cbn [kill k_down] in Hin. destruct (Sw i x p0 Hx Hin) as [q0 Hq0]. exists q0. apply in_or_app. left. exact Hq0.
+             ++ destruct (Sw j kj p0 Hj' Hin) as [q0 Hq0]. exists q0. apply in_or_app. left. exact Hq0.
+          -- intros j kj Hj Hpre. destruct (knth_upd_inv _ _ _ _ _ Hj) as [[<- [x [Hx ->]]]|[Hne Hj']]; [|apply (Sp j kj Hj' Hpre)].
+             unfold pre_open in Hpre. cbn in Hpre. destruct Hpre; discriminate.
+      + constructor; assumption.
+      + constructor; cbn [tcm tacc tcons tcar]; try assumption.
+        * intros j kj p0 Hj Hin. destruct (knth_upd_inv _ _ _ _ _ Hj) as [[<- [x [Hx ->]]]|[Hne Hj']]; [apply (Sw i x p0 Hx Hin) | apply (Sw j kj p0 Hj' Hin)].
+        * intros j kj Hj Hpre. destruct (knth_upd_inv _ _ _ _ _ Hj) as [[<- [x [Hx ->]]]|[Hne Hj']]; [|apply (Sp j kj Hj' Hpre)].
+          unfold pre_open in Hpre. cbn in Hpre. destruct Hpre; discriminate.
+    - (* readfrom *) cbn [tstep]. destruct (trecvq t); constructor; assumption.
+    - (* sweep *) cbn [tstep].
+      pose proof (remove_expired_aux_spec (length (byAge (tcm t))) now timeout (tcm t) Gc (Nat.le_refl _)) as (_ & _ & _ & _ & _ & _ & I7).
+      fold (remove_expired now timeout (tcm t)) in I7.
+      destruct (sweep_rec now timeout (tcm t) Gc) as (_ & _ & _ & W4 & _). cbn zeta in W4.
+      constructor; cbn [tcm tacc tcons tcar]; try assumption.
+      + intros b r p H Hin. destruct (W4 b r H) as [H0 _]. apply (Sl b r p H0 Hin).
+      + intros q l p H Hin. destruct (I7 (q, l) H) as [H0|[r [Hr [E _]]]]; [apply (Sd q l p H0 Hin)|].
+        injection E as -> ->. exists (c_addr r). apply (Sl (c_addr r) r p); [apply rec_of_in; assumption | exact Hin].
+  Qed.
+
+  Theorem trun_srcinv : forall ops, SrcInv (trun timeout ops).
+  Proof.
+    intros ops. unfold trun.
+    assert (H : forall t, GInv t -> SrcInv t -> SrcInv (fold_left (tstep timeout) ops t)).
+    { induction ops as [|o ops IH]; intros t G S0; cbn [fold_left]; [exact S0|].
+      apply IH; [apply tstep_ginv; exact G | apply tstep_srcinv; assumption]. }
+    apply H; [apply ginv_init | apply srcinv_init].
+  Qed.
+
+  (* Downstream isolation with retention, for every timed schedule: whatever carrier i was written was accepted by
+     WriteTo for the very ClientID (key) carrier i presented. *)
+  Theorem timed_downstream_only_same_id : forall ops i k p,
+    nth_error (tcar (trun timeout ops)) i = Some k -> In p (k_down k) ->
+    exists q, In (key_of k, q, p) (tacc (trun timeout ops)).
+  Proof.
+    intros ops i k p Hk Hin. destruct (trun_srcinv ops) as [_ _ Sc Sw _].
+    destruct (Sw i k p Hk Hin) as [q Hq]. exists q. apply (Sc _ _ _ _ Hq).
+  Qed.
+End Src.
